@@ -255,7 +255,10 @@ func runL2Script(script []c18Op) (trace string, maxLeaving int, oracleUpdates in
 	fmt.Fprintf(&sb, "GENESIS => [%s]\n", renderUpdates(l2.K.InitGenesis(l2.Ctx, gs)))
 	cfg := henv.DefaultBridgeConfig(users[0].Str, users[1].Str, time.Hour)
 	cfg.OracleEnabled = true
-	emit := func(op fmt.Stringer, r henv.Result) { fmt.Fprintf(&sb, "%s => %s\n", op, renderResult(r)) }
+	// gas is part of a transaction's result (and of the block's results hash): it belongs to the trace
+	emit := func(op fmt.Stringer, r henv.Result) {
+		fmt.Fprintf(&sb, "%s => %s gas=%d\n", op, renderResult(r), r.Gas)
+	}
 	emit(c18Op{Kind: "bridgeinfo"}, l2.Deliver(opchildtypes.NewMsgSetBridgeInfo(exec.Str, opchildtypes.BridgeInfo{BridgeId: 1, BridgeAddr: "b1", L1ChainId: c15ChainID, L1ClientId: c15ClientID, BridgeConfig: cfg})))
 	l2.OK.InitGenesis(l2.Ctx, oracletypes.GenesisState{CurrencyPairGenesis: []oracletypes.CurrencyPairGenesis{}})
 	for _, p := range c18Pairs {
@@ -320,6 +323,9 @@ func runL2Script(script []c18Op) (trace string, maxLeaving int, oracleUpdates in
 				b.Deliver(opchildtypes.NewMsgInitiateTokenWithdrawal(users[op.A%4].Str, "noise", coinOf(denoms[op.A%2], 1)))
 				m, _ := opchildtypes.NewMsgAddValidator("noise", b.Authority, ops[op.B%6].String(), key(op.A%6))
 				b.Deliver(m)
+				// the rest of the block executed ahead of time (optimistic execution, a proposal that is not
+				// the one that gets committed): end of block on the branch
+				_, _ = b.EndBlock()
 			})
 		}
 		switch op.Kind {
@@ -368,7 +374,14 @@ func runL2Script(script []c18Op) (trace string, maxLeaving int, oracleUpdates in
 		case "withdraw":
 			emit(op, l2.Deliver(opchildtypes.NewMsgInitiateTokenWithdrawal(users[op.A%4].Str, users[op.B%4].Str, coinOf(denoms[op.B%2], op.C%20+1))))
 		case "oracle":
-			ts += 1000
+			// timestamps mostly increase; one update in four carries an older one, and updates may carry a
+			// subset of the pairs, so that an update can be refused for some pairs after others were written
+			if op.B%4 == 3 {
+				ts -= 500
+			} else {
+				ts += 1000
+			}
+			mask := op.A % 16
 			var votes []cometabci.ExtendedVoteInfo
 			for vi, v := range hostVals {
 				if vi == int(op.A%4) && op.B%2 == 0 {
@@ -376,6 +389,9 @@ func runL2Script(script []c18Op) (trace string, maxLeaving int, oracleUpdates in
 				}
 				prices := map[uint64][]byte{}
 				for pi, p := range c18Pairs {
+					if p != c15TsPair && mask != 0 && mask&(1<<uint(pi%4)) == 0 {
+						continue
+					}
 					id, _ := currencypair.CurrencyPairToHashID(p)
 					val := big.NewInt(op.C*100 + int64(pi*7+vi))
 					if p == c15TsPair {
